@@ -16,6 +16,8 @@ type vhNode struct {
 	id     string
 	target string // "" = no deleteWith
 	hasT   bool
+	target2 string // a second deleteWith entry (kind 4)
+	hasT2   bool
 }
 
 func vhC08Item(env *vhEnv, i int, kind int) *vhNode {
@@ -36,6 +38,16 @@ func vhC08Item(env *vhEnv, i int, kind int) *vhNode {
 		id, err := SetProp(env.ctx, env.state, owner, "p", true)
 		vassume(err == nil)
 		n.id, n.target, n.hasT = id, owner, true
+		return n
+	}
+	if kind == 4 { // plain fact naming two targets
+		n.id = vhId(i)
+		f = Map{"a": "v"}
+		n.target, n.hasT = vsymStrN(pre+".t", 4), true
+		n.target2, n.hasT2 = vsymStrN(pre+".u", 4), true
+		f[KW_DeleteWith] = []interface{}{n.target, n.target2}
+		_, err := env.state.Add(env.ctx, n.id, f)
+		vassume(err == nil)
 		return n
 	}
 	if vchoose(2) == 1 {
@@ -90,6 +102,12 @@ func VH_C08_cascade(kind, k0, k1, k2 int) {
 			d := n.target == x
 			for j, o := range nodes {
 				d = vor(d, vand(del[j], n.target == o.id))
+			}
+			if n.hasT2 {
+				d = vor(d, n.target2 == x)
+				for j, o := range nodes {
+					d = vor(d, vand(del[j], n.target2 == o.id))
+				}
 			}
 			del[i] = vor(del[i], d)
 		}
